@@ -30,7 +30,11 @@ Extras == <<"",
   "d: {#I: int, v: #I, w?: #I}\ne: d.v",
   "import \"struct\"\nd: {[string]: int} & struct.MaxFields(2)",
   "d: {x: 1, y: x + 1, _h: 3, z: _h}",
-  "d: *{k: 1} | {k: 2, m: string}">>
+  "d: *{k: 1} | {k: 2, m: string}",
+  \* bounds the printer may simplify (uint, sized integer types, merged ranges)
+  "d: int & >0 & <10\ne: {x: int & >=0 & <10, y: uint & <2}",
+  "d: >0.0 & <1.5\ne: {x: int & >=-128 & <=127, y: int & >=0 & <=255}",
+  "d: number & >=0 & <=2\ne: {x: int & >-1 & <2, y: >=0 & <=1 & int | *\"s\"}">>
 Profiles == {"all", "final", "eval", "export"}
 Aspects == {"data", "types", "disjuncts", "defaults", "optional", "patterns", "definitions", "closedness", "hidden"}
 Shows(p) ==
